@@ -212,6 +212,10 @@ func (e *Engine) verifyFunc(key string, against *FuncContract, prefix string) (r
 			if ac.K < 1 || ac.K > nret {
 				x.fail("anchor [%s] of %s: there is no return %d (the function has %d)", ac.Clause.Label, key, ac.K, nret)
 			}
+		case "store":
+			if x.storeTarget(fn, ac) == nil {
+				x.fail("anchor [%s] of %s: there is no assignment #%d to %s", ac.Clause.Label, key, ac.K, ac.Callee)
+			}
 		case "call":
 			if x.anchorTarget(fn, ac) == nil {
 				x.fail("anchor [%s] of %s: there is no call #%d of %q", ac.Clause.Label, key, ac.K, ac.Callee)
